@@ -47,8 +47,8 @@ type hist struct {
 	// leaves the rest of the history (drawn from rng) as it was
 	rng2 *rand.Rand
 	in   *inst
-	uni []ukey
-	idx map[string]int // key -> universe index
+	uni  []ukey
+	idx  map[string]int // key -> universe index
 
 	model map[string]string
 	rec   *caseRec
